@@ -10,6 +10,7 @@ import (
 	"fmt"
 	"sort"
 	"strings"
+	"time"
 
 	pb "google.golang.org/protobuf/proto"
 
@@ -292,7 +293,23 @@ func (w *c2World) populate() {
 	u := w.root
 	w.write(u, 0, "put")
 	if w.byName["lm"] != nil {
-		// body 1 gets a second supervoxel so that cleave requests are meaningful
+		// body 1 gets a second supervoxel so that cleave requests are meaningful (the label indices of the voxels
+		// just written are built by a goroutine no idle predicate covers: wait until both exist)
+		must(w.n.Idle(), "idle")
+		for _, l := range []int{1, 3} {
+			deadline := time.Now().Add(90 * time.Second)
+			for {
+				r, err := w.n.HTTP("GET", fmt.Sprintf("/api/node/%s/lm/index/%d", u, l), nil)
+				must(err, "GET index")
+				if r.Status == 200 && len(r.Bytes()) > 0 {
+					break
+				}
+				if time.Now().After(deadline) {
+					infra("label index %d of the populated labelmap did not appear within 90 s", l)
+				}
+				time.Sleep(20 * time.Millisecond)
+			}
+		}
 		w.okPost("POST", "/api/node/"+u+"/lm/merge", []byte(`[1,3]`))
 	}
 	if w.byName["tiles"] != nil {
